@@ -44,6 +44,15 @@ theorem tie_h_load_storeList : Extracted.Load.h_load_storeList = Canon.Load.h_lo
 theorem tie_h_load_assertNoNullElements : Extracted.Load.h_load_assertNoNullElements = Canon.Load.h_load_assertNoNullElements := by decide +kernel
 theorem tie_h_load_parseCron : Extracted.Load.h_load_parseCron = Canon.Load.h_load_parseCron := by decide +kernel
 theorem tie_h_load_convertValue : Extracted.Load.h_load_convertValue = Canon.Load.h_load_convertValue := by decide +kernel
+theorem tie_h_rest_load_dag_loader_go : Extracted.Load.h_rest_load_dag_loader_go = Canon.Load.h_rest_load_dag_loader_go := by decide +kernel
+theorem tie_h_rest_load_dag_builder_go : Extracted.Load.h_rest_load_dag_builder_go = Canon.Load.h_rest_load_dag_builder_go := by decide +kernel
+theorem tie_h_rest_load_dag_parser_go : Extracted.Load.h_rest_load_dag_parser_go = Canon.Load.h_rest_load_dag_parser_go := by decide +kernel
+theorem tie_h_rest_load_dag_dag_go : Extracted.Load.h_rest_load_dag_dag_go = Canon.Load.h_rest_load_dag_dag_go := by decide +kernel
+theorem tie_h_rest_load_dag_step_go : Extracted.Load.h_rest_load_dag_step_go = Canon.Load.h_rest_load_dag_step_go := by decide +kernel
+theorem tie_h_rest_load_dag_condition_go : Extracted.Load.h_rest_load_dag_condition_go = Canon.Load.h_rest_load_dag_condition_go := by decide +kernel
+theorem tie_h_rest_load_patternutil_patternutil_go : Extracted.Load.h_rest_load_patternutil_patternutil_go = Canon.Load.h_rest_load_patternutil_patternutil_go := by decide +kernel
+theorem tie_h_rest_load_persistence_model_status_go : Extracted.Load.h_rest_load_persistence_model_status_go = Canon.Load.h_rest_load_persistence_model_status_go := by decide +kernel
+theorem tie_h_rest_load_persistence_model_node_go : Extracted.Load.h_rest_load_persistence_model_node_go = Canon.Load.h_rest_load_persistence_model_node_go := by decide +kernel
 theorem tie_builderFields : Extracted.Load.builderFields = Canon.Load.builderFields := by decide +kernel
 theorem tie_callEdges : Extracted.Load.callEdges = Canon.Load.callEdges := by decide +kernel
 theorem tie_defStructs : Extracted.Load.defStructs = Canon.Load.defStructs := by decide +kernel
@@ -91,6 +100,15 @@ theorem tie_entryOpts : Extracted.Load.entryOpts = Canon.Load.entryOpts := by de
 #print axioms tie_h_load_assertNoNullElements
 #print axioms tie_h_load_parseCron
 #print axioms tie_h_load_convertValue
+#print axioms tie_h_rest_load_dag_loader_go
+#print axioms tie_h_rest_load_dag_builder_go
+#print axioms tie_h_rest_load_dag_parser_go
+#print axioms tie_h_rest_load_dag_dag_go
+#print axioms tie_h_rest_load_dag_step_go
+#print axioms tie_h_rest_load_dag_condition_go
+#print axioms tie_h_rest_load_patternutil_patternutil_go
+#print axioms tie_h_rest_load_persistence_model_status_go
+#print axioms tie_h_rest_load_persistence_model_node_go
 #print axioms tie_builderFields
 #print axioms tie_callEdges
 #print axioms tie_defStructs
